@@ -112,6 +112,20 @@ CHECKS = {
         'No rule is an ancestor of another in the same set; colliding destination ports are replaced.',
         'DESIGN.md section 3 C15',
     ),
+    'C19': (
+        'exploration',
+        'property-based testing: generated class shapes / member kinds / loader configurations with a round-trip oracle (members restored, save(recreated) = save(original)), a copy-at-save metamorphic test and loader-use counters',
+        'Generated inheritance chains (<=4 levels, sibling branch) of Savable classes declared with @auto_persist; members over plain nested values, bound methods, nested Savables (depth 3) and SavableFutures in all four states; default / global custom / per-save custom loaders with and without a loader in the load context. Checked: declaration sets per class (no leakage), saved keys, every declared member restored by kind, deep mutation of the original after save() leaves the saved state untouched, custom loader recorded at save is the one resolving the class at load, tampered identifiers raise ValueError.',
+        'Only the @auto_persist decorator declares members; custom loaders fall back to the default loader for foreign identifiers; futures are recreated on the loop given in the load context.',
+        'DESIGN.md section 3 C19',
+    ),
+    'C20': (
+        'exploration',
+        'property-based testing with an innermost-outcome model: exhaustive enumeration of chain depth x terminal outcome x completion order x callback draining for three adapters, plus operation sequences on CancellableAction',
+        'For unwrap_kiwi_future, plum_to_kiwi_future+unwrap and Process._schedule_rpc every chain of depth <=3 (quick) / <=4 and sampled 5 (thorough) of futures resolving to futures is completed in every order: the adapter future must stay pending until all levels are connected and then carry exactly the innermost value object, exception object or cancellation. create_task must deliver the coroutine result/exception once. CancellableAction: function called at most once with the given arguments, outcome readable on the action, second run and run after cancel refused.',
+        'Thread hand-offs are modelled as loop callbacks at generated positions; handler errors of _schedule_rpc are compared through __cause__.',
+        'DESIGN.md section 3 C20',
+    ),
 }
 
 PENDING = {f'C{n:02d}': 'check not built yet in this round (see DESIGN.md section 9 for the build order)' for n in range(1, 21)}
